@@ -356,9 +356,19 @@ func run(c *vh.Ctx) error {
 		return err
 	}
 	defer drv.Close()
-	sc, err := newScenario(52, false)
+	sc, err := scenarioOrFail(c, 52, false)
 	if err != nil {
 		return err
+	}
+	if sc == nil {
+		// the scenario chain cannot be built (reported above): the streams that need it are skipped, the chain-level
+		// stream and the probes build their own chains
+		res.Partial = append(res.Partial, "scenario chain could not be built: unit, takePenalty, end-to-end and pool streams skipped in this run")
+		if err := chainLevel(c, drv); err != nil {
+			return err
+		}
+		probes(c, nil, drv)
+		return nil
 	}
 	defer sc.k.Stop()
 
@@ -597,9 +607,35 @@ func replay(c *vh.Ctx, body, comments []string) (bool, string) {
 		return true, "cannot start driver: " + err.Error()
 	}
 	defer drv.Close()
-	sc, err := newScenario(52, false)
-	if err != nil {
-		return true, "scenario: " + err.Error()
+	if len(body) > 0 && strings.HasPrefix(body[0], "SCENARIO") {
+		var blocks, tiny int
+		if _, err := fmt.Sscanf(body[0], "SCENARIO %d %d", &blocks, &tiny); err != nil {
+			return true, "bad SCENARIO line"
+		}
+		for try := 0; try < scenarioTries; try++ {
+			s2, err := newScenario(blocks, tiny == 1)
+			if err != nil {
+				return true, fmt.Sprintf("try %d: %v", try+1, err)
+			}
+			s2.k.Stop()
+		}
+		return false, fmt.Sprintf("no failure in %d builds of the scenario", scenarioTries)
+	}
+	if len(body) > 0 && strings.HasPrefix(body[0], "CHAIN") {
+		// chain scripts build their own chain; a disagreement may depend on Go map order: re-run a few times
+		var last string
+		for try := 0; try < 5; try++ {
+			still, what := replayChain(drv, body)
+			if still {
+				return true, what
+			}
+			last = what
+		}
+		return false, last
+	}
+	sc, err := scenarioOrFail(nil, 52, false)
+	if err != nil || sc == nil {
+		return true, fmt.Sprintf("scenario: %v", err)
 	}
 	defer sc.k.Stop()
 	return replayBody(sc, drv, body)
